@@ -641,6 +641,16 @@ func runC19Exp(env *run.Env, e *c19Exp) c19Outcome {
 		// Wait until orphan has gone: lock can be taken.
 		waitLockFree(filepath.Join(s.dir, "base/policies/LOCK"), 30*time.Second)
 		tl.add(s.snapshot(), "orphan-finished")
+	case "mail-fails":
+		// A revision that does not compile arrives and every mail of the
+		// run is refused by the mail system; whatever the script mails,
+		// the database must get on.
+		os.WriteFile(filepath.Join(s.dir, "mail.fail"), nil, 0644)
+		s.commit(true, nil)
+		s.runNewpolicy(0)
+		tl.add(s.snapshot(), "run-with-failing-mail")
+		tl.checkNewDirs("run-with-failing-mail")
+		os.Remove(filepath.Join(s.dir, "mail.fail"))
 	case "commit-while-compiling":
 		// A developer pushes a revision while the compiler of a run works.
 		park := filepath.Join(s.dir, "park-netspoc")
@@ -834,7 +844,7 @@ func checkC19(tier, replay string) int {
 	rep := ev.New(env, "fault_enumeration")
 	rep.Rule = "Commit histories {fresh, p1+good, p1+bad, p1+good+bad, p1+bad+bad, p1+POLICY-file edit, lost link, up to date, p9+good (number of digits changes), failed-then-good} x " +
 		"kill point = every simple command of newpolicy.sh (DEBUG trap step k of the reference run of that history), " +
-		"a sample of second kills, SIGKILL - and SIGTERM / SIGINT / SIGHUP, which a script may catch - of the script while parked inside `git clone` / the compiler (orphan keeps the lock), " +
+		"a run on a non-compiling revision whose mails are all refused by the mail system, a sample of second kills, SIGKILL - and SIGTERM / SIGINT / SIGHUP, which a script may catch - of the script while parked inside `git clone` / the compiler (orphan keeps the lock), " +
 		"and 1..3 contenders started while the holder is parked in the compiler. After each event the monitor checks: current absent or complete+compiling, " +
 		"numbers increasing, compiler runs not interleaved; then one undisturbed run must make the newest compiling revision current. " +
 		"Non-trivial = the fault was delivered (script killed at the step / child parked and parent killed / contenders ran while holder parked). " +
@@ -920,6 +930,7 @@ func checkC19(tier, replay string) int {
 			exps = append(exps, &c19Exp{Hist: t.h.Name, Kind: "commit-while-compiling", Bad: bad, template: t.s})
 		}
 		exps = append(exps, &c19Exp{Hist: t.h.Name, Kind: "stale-lock-handle", template: t.s})
+		exps = append(exps, &c19Exp{Hist: t.h.Name, Kind: "mail-fails", template: t.s})
 		for n := 1; n <= 3; n++ {
 			if tier == "quick" && !quickHists[t.h.Name] {
 				continue
